@@ -118,7 +118,6 @@ func VxC05_NormalMonotone() {
 	vx.Assert(n.PDF(x1) >= 0, "PDF is non-negative")
 }
 
-
 // vxBetaIncFn: the incomplete beta function as an uninterpreted function (same symbol in the code and in the reference).
 func vxBetaIncFn(x, a, b float64) float64 { return vx.UFloat("betaincfn", x, a, b) }
 
